@@ -84,6 +84,25 @@ static void body_compress(void) {
     if (vx_want_sample()) vx_sample("%s: %ld index corrections in the last frame's window", hs, corrections);
 }
 
+/* --mode 2: a context that has already seen 1.0 - 1.1 MB (3 frames of 300 KB and 5..10 of 20 KB): with the lowered index limit of this build the next frame starts beyond
+ * "too close to the maximum index" and the match state is reset pre-emptively; every (shape, size, strategy, api) as that next frame */
+static void body_marathon(void) {
+    int pre = 8 + vx_choose(6), preStrat = vx_choose(2) ? 2 : 5; op_t o; o.shape = vx_choose(7); o.size = 1 + vx_choose(2); o.strat = 1 + vx_choose(9); o.api = vx_choose(5);
+    vx_label("marathon 3 x 300K + %d x 20K strat%d, then (s%d,%zuK,strat%d,api%d)", pre - 3, preStrat, o.shape, SIZES[o.size] >> 10, o.strat, o.api);
+    ZSTD_CCtx* c = ZSTD_createCCtx(); op_t w = { 0, 2, preStrat, 0 }; size_t n, r = 0;
+    for (int i = 0; i < pre; i++) { w.shape = i % 5; w.size = i < 3 ? 2 : 1;      /* 3 x 300 KB + (5..10) x 20 KB: the index ends between the "too close" mark (995 328) and the limit (1 126 400) */
+        r = run_op(c, &w, g_dst, &n); if (ZSTD_isError(r)) { vx_fail("warm-up frame %d fails: %s", i + 1, ZSTD_getErrorName(r)); ZSTD_freeCCtx(c); return; } }
+    r = run_op(c, &o, g_dst, &n); long resets = (long)c->blockState.matchState.window.nbOverflowCorrections;
+    if (ZSTD_isError(r)) vx_fail("frame after %d x 300 KB fails: %s", pre, ZSTD_getErrorName(r));
+    else {
+        size_t d; { ZSTD_DCtx* dc = ZSTD_createDCtx(); if (o.api == 2) ZSTD_DCtx_refPrefix(dc, g_dict, 4096); d = ZSTD_decompressDCtx(dc, g_out, SRCMAX, g_dst, r); ZSTD_freeDCtx(dc); }
+        if (ZSTD_isError(d) || d != n || memcmp(g_out, g_src, n)) vx_fail("frame after %d x 300 KB does not round trip (%s)", pre, ZSTD_isError(d) ? ZSTD_getErrorName(d) : "content");
+        else { ZSTD_CCtx* f = ZSTD_createCCtx(); size_t n2, r2 = run_op(f, &o, g_ref, &n2); ZSTD_freeCCtx(f); if (ZSTD_isError(r2) || r2 != r || memcmp(g_ref, g_dst, r)) vx_fail("frame after %d x 300 KB differs from the fresh-context output", pre); }
+    }
+    ZSTD_freeCCtx(c);
+    vx_obs_u64(vx_hash(g_dst, 64)); vx_obs_u64((uint64_t)resets); vx_nontrivial(); vx_stat_add("frames", pre + 1);
+}
+
 static void body_decode(void) {
     /* long streams through a 1 KiB-window streaming decoder with tiny outputs: the output ring restarts many times */
     int shape = vx_choose(7), strat = 1 + vx_choose(9), ocap = vx_choose(3);
@@ -102,5 +121,5 @@ static void body_decode(void) {
     vx_obs_u64(vx_hash(g_dst, co.pos)); vx_nontrivial(); vx_stat_add("decoder_ring_restarts_at_least", (long)(n / 4096));
 }
 
-static void body(void) { if (g_mode == 0) body_compress(); else body_decode(); }
+static void body(void) { if (g_mode == 0) body_compress(); else if (g_mode == 2) body_marathon(); else body_decode(); }
 int main(int argc, char** argv) { return vx_main(argc, argv, init, body); }
